@@ -197,7 +197,7 @@ theorem classifyComment_torn (pl : Payloads) (hpl : PlOk pl) (l : Text) (hl : l.
         | none => simp only; right; right; left; rfl
         | some kb =>
           exfalso
-          have hlast := hpl.2 _ _ hlk
+          have hlast := hpl.2.1 _ _ hlk
           obtain ⟨x, hx⟩ := payload_suffix l _ id js hs
           have hne : js ≠ [] := by intro e; rw [e] at hlast; cases hlast
           rw [getLast?_of_suffix hx hne] at hlast
@@ -206,19 +206,28 @@ theorem classifyComment_torn (pl : Payloads) (hpl : PlOk pl) (l : Text) (hl : l.
       · right; right; right; right; right; rfl
       · right; right; right; right; left; rfl
 
-theorem sessLine_getLast (q cmd : Text) (hc : cmdOk cmd = true) : (q ++ sessLine cmd).getLast? ≠ some '}' := by
-  have h3 : cmd.getLast? ≠ some '}' := by
-    have := (Bool.and_eq_true_iff.mp hc).2
-    simpa using this
+theorem cmdOk_spec {cmd : Text} (h : cmdOk cmd = true) :
+    '\t' ∉ cmd ∧ '\n' ∉ cmd ∧ cmd.getLast? ≠ some '}' ∧ cmd.getLast? ≠ some ']' ∧ cmd.getLast? ≠ some '"' := by
+  unfold cmdOk at h
+  simp only [Bool.and_eq_true, Bool.not_eq_true', bne_iff_ne, ne_eq] at h
+  obtain ⟨⟨⟨⟨h1, h2⟩, h3⟩, h4⟩, h5⟩ := h
+  exact ⟨by simpa using h1, by simpa using h2, h3, h4, h5⟩
+
+/-- the last character of a line that ends in the `#!` line is the command line's (or `!`) -/
+theorem sessLine_getLast_ne (q cmd : Text) (c : Char) (hc : cmd.getLast? ≠ some c) (hc' : c ≠ '!') :
+    (q ++ sessLine cmd).getLast? ≠ some c := by
   unfold sessLine
   rw [List.getLast?_append]
   cases cmd with
-  | nil => simp
-  | cons c cs =>
+  | nil => simpa using fun e : '!' = c => hc' e.symm
+  | cons d ds =>
     rw [List.getLast?_cons_cons, List.getLast?_cons_cons]
-    cases hl : (c :: cs).getLast? with
+    cases hl : (d :: ds).getLast? with
     | none => simp at hl
-    | some d => rw [hl] at h3; simpa using h3
+    | some e => rw [hl] at hc; simpa using hc
+
+theorem sessLine_getLast (q cmd : Text) (hc : cmdOk cmd = true) : (q ++ sessLine cmd).getLast? ≠ some '}' :=
+  sessLine_getLast_ne q cmd '}' (cmdOk_spec hc).2.2.1 (by decide)
 
 /-- the session line itself -/
 theorem classify_sessLine (pl : Payloads) (hdr cmd : Text) :
@@ -228,8 +237,17 @@ theorem classify_sessLine (pl : Payloads) (hdr cmd : Text) :
   have h3 : sessionPrefix = ['#', '!'] := by decide
   simp [classify, sessLine, classifyComment, h1, h2, h3, List.isPrefixOf]
 
-/-- a data line with the `#!` line glued to it never parses as a measurement -/
-theorem classify_glued_not_meas (pl : Payloads) (hdr pre cmd : Text) (t : Bool)
+theorem tab_not_mem_sess (cmd : Text) (hcmd : '\t' ∉ cmd) : '\t' ∉ ('#' :: '!' :: cmd) := by
+  intro hmem
+  rcases List.mem_cons.mp hmem with e | hmem
+  · cases e
+  rcases List.mem_cons.mp hmem with e | hmem
+  · cases e
+  exact hcmd hmem
+
+/-- benchmark data file: a data line with the `#!` line glued to it never parses as a measurement
+(its last column, the run id, contains `#`) -/
+theorem classify_glued_not_meas (pl : Payloads) (hp : pl.profile = none) (hdr pre cmd : Text) (t : Bool)
     (hcmd : '\t' ∉ cmd) (m : Meas) :
     classify pl hdr ⟨pre ++ '#' :: '!' :: cmd, t⟩ ≠ .meas m := by
   intro h
@@ -241,29 +259,43 @@ theorem classify_glued_not_meas (pl : Payloads) (hdr pre cmd : Text) (t : Bool)
     all_goals cases h
   · split at h
     · cases h
-    · obtain ⟨last, hl, hn⟩ := classifyData_meas_last h
-      have hb : '\t' ∉ ('#' :: '!' :: cmd) := by
-        intro hmem
-        rcases List.mem_cons.mp hmem with e | hmem
-        · cases e
-        rcases List.mem_cons.mp hmem with e | hmem
-        · cases e
-        exact hcmd hmem
-      obtain ⟨x, hx⟩ := splitOn_getLast_append '\t' ('#' :: '!' :: cmd) hb pre
+    · unfold classifyLine at h
+      rw [hp] at h
+      simp only at h
+      obtain ⟨last, hl, hn⟩ := classifyData_meas_last h
+      obtain ⟨x, hx⟩ := splitOn_getLast_append '\t' ('#' :: '!' :: cmd) (tab_not_mem_sess cmd hcmd) pre
       rw [hx] at hl
       cases hl
       have := pyNat?_none_of_nondigit (x ++ '#' :: '!' :: cmd) '#' (by simp) (by decide)
       rw [this] at hn; cases hn
 
+/-- profile data file: a data line with the `#!` line glued to it is rejected by the JSON check of
+its last column (which then ends like the command line, not like a JSON value) -/
+theorem classifyProfile_glued (pl : Payloads) (hpl : PlOk pl) (ok : Text → Bool) (hp : pl.profile = some ok)
+    (pre cmd : Text) (hc : cmdOk cmd = true) :
+    classifyProfile ok (splitOn '\t' (pre ++ sessLine cmd)) = .dataErr .value := by
+  obtain ⟨htab, _, _, h4, h5⟩ := cmdOk_spec hc
+  obtain ⟨x, hx⟩ := splitOn_getLast_append '\t' ('#' :: '!' :: cmd) (tab_not_mem_sess cmd htab) pre
+  have hx' : (splitOn '\t' (pre ++ sessLine cmd)).getLast? = some (x ++ sessLine cmd) := hx
+  have hrej : ok (x ++ sessLine cmd) = false := by
+    cases hok : ok (x ++ sessLine cmd) with
+    | false => rfl
+    | true =>
+      rcases hpl.2.2 ok _ hp hok with h | h
+      · exact absurd h (sessLine_getLast_ne x cmd ']' h4 (by decide))
+      · exact absurd h (sessLine_getLast_ne x cmd '"' h5 (by decide))
+  unfold classifyProfile
+  rw [hx']
+  simp [hrej]
+
 /-- the junction: whatever newline-free text `q` the file ended in (nothing, the tail of an
 interrupted write, or that tail followed by a further torn piece), the line that begins with `q`
-and continues with the next session's `#!` line is tolerated by the loader -/
+and continues with the next session's `#!` line is tolerated by the loader — in a benchmark data
+file and in a profile data file -/
 theorem junction_torn (pl : Payloads) (hdr : Text) (hh : '#' ∉ hdr) (hpl : PlOk pl)
     (q cmd : Text) (hc : cmdOk cmd = true) :
     Torn (classify pl hdr ⟨q ++ sessLine cmd, true⟩) := by
-  have htab : '\t' ∉ cmd := by
-    have := (Bool.and_eq_true_iff.mp (Bool.and_eq_true_iff.mp hc).1).1
-    simpa using this
+  have htab : '\t' ∉ cmd := (cmdOk_spec hc).1
   cases q with
   | nil =>
     rw [List.nil_append, classify_sessLine]
@@ -275,20 +307,35 @@ theorem junction_torn (pl : Payloads) (hdr : Text) (hh : '#' ∉ hdr) (hpl : PlO
         simp [classify]
       rw [this]
       exact classifyComment_torn pl hpl _ (sessLine_getLast _ _ hc)
-    · have hne : ∀ m, classify pl hdr ⟨(c :: q) ++ sessLine cmd, true⟩ ≠ .meas m :=
-        fun m => classify_glued_not_meas pl hdr (c :: q) cmd true htab m
-      have hnh : ((c :: q) ++ sessLine cmd) ≠ hdr := by
+    · have hnh : ((c :: q) ++ sessLine cmd) ≠ hdr := by
         intro e; apply hh; rw [← e]; simp [sessLine]
-      unfold classify at hne ⊢
-      simp only [List.cons_append] at hne ⊢
-      split
-      · next heq => simp only [List.cons.injEq] at heq; exact absurd heq.1 hcs
-      · simp only [List.cons_append] at hnh
-        simp only [hnh, Bool.false_and, Bool.false_eq_true, ↓reduceIte, decide_false] at hne ⊢
-        rcases classifyData_cases (splitOn '\t' (c :: (q ++ sessLine cmd))) with h | h | ⟨m, h⟩
+      have hcl : classify pl hdr ⟨(c :: q) ++ sessLine cmd, true⟩
+          = classifyLine pl (splitOn '\t' ((c :: q) ++ sessLine cmd)) := by
+        unfold classify
+        simp only [List.cons_append]
+        split
+        · next heq => simp only [List.cons.injEq] at heq; exact absurd heq.1 hcs
+        · simp only [List.cons_append] at hnh
+          simp [hnh]
+      rw [hcl]
+      cases hp : pl.profile with
+      | none =>
+        have hne : ∀ m, classify pl hdr ⟨(c :: q) ++ sessLine cmd, true⟩ ≠ .meas m :=
+          fun m => classify_glued_not_meas pl hp hdr (c :: q) cmd true htab m
+        rw [hcl] at hne
+        unfold classifyLine at hne ⊢
+        rw [hp] at hne ⊢
+        simp only at hne ⊢
+        rcases classifyData_cases (splitOn '\t' ((c :: q) ++ sessLine cmd)) with h | h | ⟨m, h⟩
         · rw [h]; left; rfl
         · rw [h]; right; left; rfl
         · exact absurd h (hne m)
+      | some ok =>
+        unfold classifyLine
+        rw [hp]
+        simp only
+        rw [classifyProfile_glued pl hpl ok hp (c :: q) cmd hc]
+        left; rfl
 
 /-- `parse (render rec) = rec` for a measurement line rendered from tab-free fields -/
 theorem rendered_line_parses (invT itT val unit crit : Text) (mid : List Text) (idxT : Text)
@@ -386,9 +433,7 @@ def recsOfSessions (pl : Payloads) (hdr : Text) (q : Text) (tb : Tables) : List 
   | s :: ss => classify pl hdr ⟨q ++ sessLine s.cmd, true⟩
       :: ((s.body tb).map RLine.cls ++ recsOfSessions pl hdr [] (ensureAll tb s.ds) ss)
 
-theorem cmdOk_nonl {cmd : Text} (h : cmdOk cmd = true) : '\n' ∉ cmd := by
-  have := (Bool.and_eq_true_iff.mp (Bool.and_eq_true_iff.mp h).1).2
-  simpa using this
+theorem cmdOk_nonl {cmd : Text} (h : cmdOk cmd = true) : '\n' ∉ cmd := (cmdOk_spec h).2.1
 
 theorem sessLine_nonl {q cmd : Text} (hq : '\n' ∉ q) (h : cmdOk cmd = true) : '\n' ∉ q ++ sessLine cmd := by
   intro hm
